@@ -23,6 +23,9 @@ pub fn work_root() -> PathBuf {
 }
 
 pub fn cleanup_work_root() {
+    if std::env::var("PV_KEEP_SCRATCH").map(|v| !v.is_empty()).unwrap_or(false) {
+        return;
+    }
     let _ = std::fs::remove_dir_all(work_root());
 }
 
@@ -36,7 +39,8 @@ impl Scratch {
         let dir = work_root().join(format!("{tag}-{n}"));
         let _ = std::fs::remove_dir_all(&dir);
         std::fs::create_dir_all(&dir).expect("create scratch dir");
-        Scratch { dir, keep: false }
+        // debugging aid: PV_KEEP_SCRATCH=1 leaves every scratch directory behind
+        Scratch { dir, keep: std::env::var("PV_KEEP_SCRATCH").map(|v| !v.is_empty()).unwrap_or(false) }
     }
     pub fn keep(&mut self) {
         self.keep = true;
